@@ -1,0 +1,23 @@
+//go:build verif
+
+// Replay builders for package proxy (see proxycore/zz_verif_replay.go).
+
+package proxy
+
+import (
+	"fmt"
+	"strings"
+)
+
+// verifReplayParseProtocolVersion: every documented spelling selects the version it names.
+func verifReplayParseProtocolVersion(s string) error {
+	v, ok := parseProtocolVersion(s)
+	lowered := strings.ToLower(s)
+	if ok != verifSpecVersionKnown(lowered) {
+		return fmt.Errorf("parseProtocolVersion(%q) ok=%v, documented=%v", s, ok, verifSpecVersionKnown(lowered))
+	}
+	if ok && v != verifSpecVersion(lowered) {
+		return fmt.Errorf("parseProtocolVersion(%q) = %v, the documented meaning is %v", s, v, verifSpecVersion(lowered))
+	}
+	return nil
+}
